@@ -16,8 +16,10 @@ import (
 	"github.com/dgraph-io/badger/v4/pb"
 
 	"verif/h/core"
+	"verif/h/drv"
 	"verif/h/gen"
 	"verif/h/hist"
+	"verif/h/model"
 	"verif/h/sched"
 )
 
@@ -521,13 +523,109 @@ func c38FullL0(c *core.Ctx, work string, idx int, op string) {
 	}
 }
 
+// c38GCvsClose: RunValueLogGC has scanned its victim file and is about to write the live entries
+// back when Close (or DropAll / DropPrefix, which only pause writes) arrives. The hook at the
+// "gc.afterScan" schedule point starts the other call and lets the GC go on once that call is under
+// way; every call must return.
+func c38GCvsClose(c *core.Ctx, work string, idx int, other string) {
+	r := c.Rand(fmt.Sprintf("c38-gc-%d", idx))
+	dir := filepath.Join(work, fmt.Sprintf("gcclose%d", idx))
+	_ = os.MkdirAll(dir, 0o755)
+	defer os.RemoveAll(dir)
+	o, oname := drvOptions(dir, []int{0, 2}[idx%2])
+	o.MemTableSize = 1 << 20
+	o.ValueThreshold = 32
+	o.ValueLogMaxEntries = 24
+	o.MaxLevels = 3
+	o.NumLevelZeroTables = 1
+	db, err := drv.Open(o, false)
+	if err != nil {
+		c.Inconclusive("open: " + err.Error())
+		return
+	}
+	w := &drv.World{C: c, Sig: "C38|gc-vs-" + other, DB: db, Opt: o, M: model.New(), R: r}
+	// live entries and junk in the same value-log files, junk overwritten and compacted away
+	for i := 0; i < 12; i++ {
+		_, _ = w.Commit([]drv.WriteSpec{{Key: []byte(fmt.Sprintf("keep%02d", i)), Len: 200}})
+		_, _ = w.Commit([]drv.WriteSpec{{Key: []byte(fmt.Sprintf("junk%02d", i)), Len: 2000}})
+	}
+	for round := 0; round < 2; round++ {
+		for i := 0; i < 18; i++ {
+			_, _ = w.Commit([]drv.WriteSpec{{Key: []byte(fmt.Sprintf("junk%02d", i)), Len: 2000}})
+		}
+		w.Flush()
+		w.AdvanceWatermark()
+		w.CompactForce(0, 1)
+	}
+	tr := &callTracker{inflight: map[int64]string{}, started: map[int64]time.Time{}}
+	var fired atomic.Bool
+	var wg sync.WaitGroup
+	hook := func(name string) {
+		if name != "gc.afterScan" || !fired.CompareAndSwap(false, true) {
+			return
+		}
+		wg.Add(1)
+		go func() {
+			defer wg.Done()
+			defer func() { _ = recover() }()
+			id := tr.begin(other)
+			switch other {
+			case "Close":
+				_ = w.DB.Close()
+			case "DropAll":
+				_ = w.DB.DropAll()
+			case "DropPrefix":
+				_ = w.DB.DropPrefix([]byte("junk"))
+			}
+			tr.end(id)
+		}()
+		// let the other call get as far as it can while the GC is held here
+		time.Sleep(time.Duration(20+r.Intn(60)) * time.Millisecond)
+	}
+	sched.Install(sched.Config{})
+	sched.PointHook.Store(&hook)
+	defer func() { sched.PointHook.Store(nil); sched.Uninstall() }()
+	done := make(chan struct{})
+	go func() {
+		defer close(done)
+		defer func() { _ = recover() }()
+		id := tr.begin("RunValueLogGC")
+		_ = w.DB.RunValueLogGC(0.001)
+		tr.end(id)
+		wg.Wait()
+		if other != "Close" {
+			id = tr.begin("Close")
+			_ = w.DB.Close()
+			tr.end(id)
+		}
+	}()
+	c.Eval(1)
+	select {
+	case <-done:
+	case <-time.After(45 * time.Second):
+		v, dead := analyse(tr, other+" while RunValueLogGC writes its live entries back")
+		if dead {
+			c.Violation("C38|no-progress|("+other+" during the write-back of RunValueLogGC)", v[:min(len(v), 300)], map[string]any{"options": oname, "dump": v})
+		} else {
+			c.Inconclusive(v)
+		}
+		return
+	}
+	if fired.Load() {
+		c.Count("gc_vs.cases_with_the_other_call_during_write_back", 1)
+		c.Distinct(fmt.Sprintf("gc-vs-%s|%s", other, oname))
+	} else {
+		c.Count("gc_vs.cases_where_gc_found_nothing_to_rewrite", 1)
+	}
+}
+
 // C38 public calls and Close always return.
 func C38(c *core.Ctx) {
 	c.Rule("bounded-progress restatement: with 2-4 compactors, 16 KiB memtables, NumLevelZeroTables=1 and stall at 2-3 tables (L0 stalls and full flush queues are the normal " +
 		"state), 6 committers (Commit and CommitWith), 3 readers/iterators, a WriteBatch flusher and a maintenance goroutine (RunValueLogGC, DropPrefix, DropAll, Flatten, " +
 		"Subscribe+cancel) run for 1.5-4 s with delays at flush/compaction/drop schedule points (every second round with compactions slowed to tens of milliseconds, so that L0 sits at its stall limit and writers are stalled while the maintenance calls arrive), then 2-6 subscribers are registered and Close is called while the committers keep committing and the subscribers' contexts are cancelled (some callbacks return errors) during the shutdown; every call is tracked; a " +
 		"call older than 45 s starts an analysis (two full goroutine dumps 8 s apart + completed-call counter): unchanged blocked badger stacks and no completed call = violation " +
-		"with the dump as witness, anything else = inconclusive; a panic inside badger raised by a public call is a violation; plus full-L0 cases: the database is re-opened with level 0 at its stall limit and a write + DropPrefix / DropAll / Flatten / RunValueLogGC + Close are issued at once; distinct = (options, compactors, stall) configurations")
+		"with the dump as witness, anything else = inconclusive; a panic inside badger raised by a public call is a violation; plus full-L0 cases: the database is re-opened with level 0 at its stall limit and a write + DropPrefix / DropAll / Flatten / RunValueLogGC + Close are issued at once; plus GC-write-back cases: RunValueLogGC is held at its after-scan schedule point with live entries to move while Close / DropAll / DropPrefix is started, then released - all calls must return; distinct = (options, compactors, stall) configurations")
 	work := c.WorkDir()
 	defer os.RemoveAll(work)
 	for i := 0; i < c.Pick(8, 60); i++ {
@@ -537,6 +635,14 @@ func C38(c *core.Ctx) {
 		if i < c.Pick(4, 6) || c.Thorough() {
 			c38FullL0(c, work, i, op)
 		}
+	}
+	for i, other := range []string{"Close", "DropAll", "Close", "DropPrefix", "Close", "Close"} {
+		if i < c.Pick(3, 6) {
+			c38GCvsClose(c, work, i, other)
+		}
+	}
+	if c.Counter("gc_vs.cases_with_the_other_call_during_write_back") == 0 {
+		c.Inconclusive("no Close/DropAll/DropPrefix arrived during a GC write-back")
 	}
 	if c.Counter("calls.completed") == 0 {
 		c.Inconclusive("no calls completed")
